@@ -269,6 +269,16 @@ func run(r *hx.Run) error {
 			return err
 		}
 	}
+	na := 120
+	if r.Thorough {
+		na = 1500
+	}
+	arng := rng.Fork(99)
+	for i := 0; i < na; i++ {
+		if err := apiCase(r, arng.Fork(uint64(i))); err != nil {
+			return err
+		}
+	}
 	n := 3000
 	if r.Thorough {
 		// every subset of the 16 advertised capabilities; the three alternative advertisement
